@@ -1313,8 +1313,10 @@ pub fn gen_c16(seed: u64) -> Scenario {
         if kind != OwnKind::Owned {
             ctors.push(Ctor::TryNew);
         }
-        if matches!(kind, OwnKind::Retry | OwnKind::Owned) && n > 0 {
+        if kind != OwnKind::Ref && n > 0 {
+            // (a boxed collection is extended only if the library offers that; else built whole)
             ctors.push(Ctor::NewThenExtend(g.rng.range(1, n)));
+            ctors.push(Ctor::NewThenExtendPanicky(g.rng.range(1, n)));
         }
         if n == 0 && kind != OwnKind::Ref {
             ctors.push(Ctor::Default);
